@@ -1,21 +1,33 @@
 // Scheduled correspondence harness for ccontainer.CContainer (C15).
 //
-// Config:  [eqcode v0]   eqcode 0 no custom equality, 1 equal mod 2, 2 always equal, 3 a <= b, 4 equal div 4
+// Config:  [eqcode v0]   eqcode 0 no custom equality, 1 equal mod 2, 2 always equal, 3 a <= b, 4 equal div 4,
+//                        5 never equal and 6 a < b (comparators that are NOT REFLEXIVE: the library's compare still
+//                        treats identical values as equal), 7 a container built with ccontainer.NewCContainerVT over
+//                        *msg (EqualVT compares an id; the numbers of the history are the ids, 0 = nil; every value
+//                        handed to the container is freshly allocated, so equal but not identical pointers occur).
+//                        Both element types are driven through the same adapter (cell), so the event interpreter
+//                        below is the same for both.
 // Events:  [1] GetValue   [2 v] SetValue(v)   [3 f k] SwapValue(cb) cb: 0 nil, 1 +k, 2 const k, 3 identity
 //          [4 kind x y hc] waiter: kind 0 WaitValue, 1 WaitValueChange(old=x), 2 WaitValueEmpty,
-//                          3 WaitValueWithValidator(family x, parameter y); hc=1: with an error channel
+//                          3 WaitValueWithValidator(family x, parameter y);
+//                          hc = e + 2*f + 6*p: e=1 with an error channel; f the flavour of its context (hctx): 0 plain
+//                          WithCancel, 1 ends like a deadline (Err() == context.DeadlineExceeded), 2 cancelled with a
+//                          cause (Err() == context.Canceled, Cause == hctx.ErrCause); p=1 the context has already
+//                          ended when the call is made
 //          (each of the above runs in a new actor, which parks at the HoldLock entry gate)
 //          [5 i] actor i continues from the gate it is parked at
-//          [6 i] cancel the context of waiter i      [7 i m] error channel of waiter i: 0 send nil, 1 send error, 2 close
+//          [6 i] the context of waiter i ends (as its flavour says)      [7 i m] error channel of waiter i: 0 send nil, 1 send error, 2 close
 //          [8 init hc] ccontainer.WatchChanges(ctx, init, ccontainer.ToWatchable(ctr), cb, errCh) in a new actor ("watcher";
-//                          events 5, 6, 7 apply to it as to a waiter, 6 and 7 also while it is inside its callback).  The
+//                          events 5, 6, 7 apply to it as to a waiter, 6 and 7 also while it is inside its callback; hc
+//                          as in event 4).  The
 //                          callback is harness-owned: it parks and returns what event 9 prescribes.
 //          [9 i r] the callback of watcher i returns: 0 nil, 1 an error
 // Observation after every event: one number per actor, status + 16*value
 //          1 at a HoldLock entry gate, 7 at the exit gate of the sampling section (waiters only), 2 blocked in select,
 //          3 returned ok, 4 returned context.Canceled, 5 returned the error channel's error, 6 returned the validator's
 //          error, 8 returned some other error, 9 panicked, 10 inside the WatchChanges callback (value = its argument),
-//          11 WatchChanges returned the callback's error, 12 WatchChanges returned nil
+//          11 WatchChanges returned the callback's error, 12 WatchChanges returned nil,
+//          13 returned context.DeadlineExceeded, 14 returned hctx.ErrCause (the cancellation cause)
 //
 // Go's select picks at random among ready cases, so the harness never lets two cases of one waiter be ready:
 // a waiter parks at the exit gate only if neither its context is cancelled nor its error channel has something
@@ -34,6 +46,7 @@ import (
 	"github.com/aperturerobotics/util/broadcast"
 	"github.com/aperturerobotics/util/ccontainer"
 	"verif/harness/ctl"
+	"verif/harness/hctx"
 	"verif/harness/hist"
 )
 
@@ -53,8 +66,96 @@ var (
 	errCb    = errors.New("verif: callback error")
 )
 
+// msg is the element type of the NewCContainerVT container (cfg eqcode 7): a pointer type with an EqualVT method
+// (proto.EqualVT[*msg]); nil is the empty value.
+type msg struct{ id uint64 }
+
+func (m *msg) EqualVT(o *msg) bool {
+	if m == nil || o == nil {
+		return m == o
+	}
+	return m.id == o.id
+}
+
+// cell is what the event interpreter drives: a container of numbers.  gcell adapts a CContainer[T].
+type cell interface {
+	GetValue() uint64
+	SetValue(v uint64)
+	SwapValue(cb func(uint64) uint64) uint64
+	WaitValue(ctx context.Context, errCh <-chan error) (uint64, error)
+	WaitValueChange(ctx context.Context, old uint64, errCh <-chan error) (uint64, error)
+	WaitValueEmpty(ctx context.Context, errCh <-chan error) error
+	WaitValueWithValidator(ctx context.Context, valid func(uint64) (bool, error), errCh <-chan error) (uint64, error)
+	WatchChanges(ctx context.Context, initial uint64, cb func(uint64) error, errCh <-chan error) error
+}
+
+type gcell[T comparable] struct {
+	ctr   *ccontainer.CContainer[T]
+	to    func(uint64) T // a value of T for the number (freshly allocated for pointer types)
+	from  func(T) uint64
+	nswap int // SwapValue calls so far
+}
+
+func (g *gcell[T]) GetValue() uint64  { return g.from(g.ctr.GetValue()) }
+func (g *gcell[T]) SetValue(v uint64) { g.ctr.SetValue(g.to(v)) }
+func (g *gcell[T]) SwapValue(cb func(uint64) uint64) uint64 {
+	if cb == nil {
+		return g.from(g.ctr.SwapValue(nil))
+	}
+	g.nswap++
+	same := g.nswap%2 == 0
+	return g.from(g.ctr.SwapValue(func(p T) T {
+		v := g.from(p)
+		r := cb(v)
+		if r == v && same {
+			// every other call: a callback whose result is the number it got returns the IDENTICAL value
+			return p
+		}
+		return g.to(r)
+	}))
+}
+func (g *gcell[T]) WaitValue(ctx context.Context, errCh <-chan error) (uint64, error) {
+	v, err := g.ctr.WaitValue(ctx, errCh)
+	return g.from(v), err
+}
+func (g *gcell[T]) WaitValueChange(ctx context.Context, old uint64, errCh <-chan error) (uint64, error) {
+	v, err := g.ctr.WaitValueChange(ctx, g.to(old), errCh)
+	return g.from(v), err
+}
+func (g *gcell[T]) WaitValueEmpty(ctx context.Context, errCh <-chan error) error {
+	return g.ctr.WaitValueEmpty(ctx, errCh)
+}
+func (g *gcell[T]) WaitValueWithValidator(ctx context.Context, valid func(uint64) (bool, error), errCh <-chan error) (uint64, error) {
+	var vf func(T) (bool, error)
+	if valid != nil {
+		vf = func(p T) (bool, error) { return valid(g.from(p)) }
+	}
+	v, err := g.ctr.WaitValueWithValidator(ctx, vf, errCh)
+	return g.from(v), err
+}
+func (g *gcell[T]) WatchChanges(ctx context.Context, initial uint64, cb func(uint64) error, errCh <-chan error) error {
+	return ccontainer.WatchChanges(ctx, g.to(initial), ccontainer.ToWatchable(g.ctr), func(p T) error { return cb(g.from(p)) }, errCh)
+}
+
+func toMsg(v uint64) *msg {
+	if v == 0 {
+		return nil
+	}
+	return &msg{id: v}
+}
+
+func fromMsg(p *msg) uint64 {
+	if p == nil {
+		return 0
+	}
+	return p.id
+}
+
+func ident(v uint64) uint64 { return v }
+
 type adata struct {
-	cancel    context.CancelFunc
+	cancel    func() // ends the context in the way of its flavour
+	flav      int    // 0 plain, 1 deadline-like, 2 cancelled with a cause
 	cancelled bool
 	errCh     chan error
 	closed    bool
@@ -65,7 +166,7 @@ type adata struct {
 
 type sys struct {
 	c    *ctl.Ctl
-	ctr  *ccontainer.CContainer[uint64]
+	ctr  cell
 	w    *hist.W
 	cfg  []uint64
 	prof int  // generation profile: 0 mixed, 1 waiter-heavy, 2 writer-heavy
@@ -89,6 +190,10 @@ func eqOf(code uint64) func(a, b uint64) bool {
 		return func(a, b uint64) bool { return true }
 	case 3:
 		return func(a, b uint64) bool { return a <= b }
+	case 5:
+		return func(a, b uint64) bool { return false }
+	case 6:
+		return func(a, b uint64) bool { return a < b }
 	default:
 		return func(a, b uint64) bool { return a/4 == b/4 }
 	}
@@ -138,10 +243,12 @@ func newSys(w *hist.W, cfg []uint64) *sys {
 		cfg = append(cfg, 0)
 	}
 	s := &sys{c: ctl.New(), w: w, cfg: cfg}
-	if eq := eqOf(cfg[0]); eq != nil {
-		s.ctr = ccontainer.NewCContainerWithEqual(cfg[1], eq)
+	if cfg[0] == 7 {
+		s.ctr = &gcell[*msg]{ctr: ccontainer.NewCContainerVT(toMsg(cfg[1])), to: toMsg, from: fromMsg}
+	} else if eq := eqOf(cfg[0]); eq != nil {
+		s.ctr = &gcell[uint64]{ctr: ccontainer.NewCContainerWithEqual(cfg[1], eq), to: ident, from: ident}
 	} else {
-		s.ctr = ccontainer.NewCContainer(cfg[1])
+		s.ctr = &gcell[uint64]{ctr: ccontainer.NewCContainer(cfg[1]), to: ident, from: ident}
 	}
 	s.c.ShouldPark = func(a *ctl.Actor, pkg string, site int, obj any) bool {
 		switch site {
@@ -189,6 +296,10 @@ func classify(err error) int {
 		return 3
 	case err == context.Canceled:
 		return 4
+	case err == context.DeadlineExceeded:
+		return 13
+	case err == hctx.ErrCause:
+		return 14
 	case err == errSent:
 		return 5
 	case err == errValid:
@@ -218,6 +329,24 @@ func (s *sys) canCancel(i int) bool {
 func (s *sys) canErr(i int) bool {
 	a, d, ok := s.waiter(i)
 	return ok && d.errCh != nil && !a.Done() && !atExit(a) && !d.cancelled && !d.closed && len(d.errCh) < errCap
+}
+
+// newCtx builds the context and error channel of a waiter / watcher call from the hc field of its event:
+// hc = e + 2*f + 6*p (e: error channel, f: context flavour, p: the context has already ended).
+func newCtx(hc uint64) (context.Context, *adata, <-chan error) {
+	fl := int(hc/2) % 3
+	ctx, end, _ := hctx.Flavour(context.Background(), [3]int{0, 1, 3}[fl])
+	d := &adata{cancel: end, flav: fl}
+	var errCh <-chan error
+	if hc%2 == 1 {
+		d.errCh = make(chan error, errCap)
+		errCh = d.errCh
+	}
+	if hc >= 6 {
+		d.cancelled = true
+		end()
+	}
+	return ctx, d, errCh
 }
 
 // exec applies one event to the real container; ok=false if the event is not applicable now.
@@ -267,17 +396,11 @@ func (s *sys) exec(ev []uint64) (obs []uint64, ok bool) {
 		})
 		synctest.Wait()
 	case 4:
-		if len(ev) != 5 || ev[1] > 3 || ev[4] > 1 {
+		if len(ev) != 5 || ev[1] > 3 || ev[4] > 11 {
 			return nil, false
 		}
 		kind, x, y := ev[1], ev[2], ev[3]
-		ctx, cancel := context.WithCancel(context.Background())
-		d := &adata{cancel: cancel}
-		var errCh <-chan error
-		if ev[4] == 1 {
-			d.errCh = make(chan error, errCap)
-			errCh = d.errCh
-		}
+		ctx, d, errCh := newCtx(ev[4])
 		a := s.c.NewActor(kWait)
 		a.Data = d
 		s.c.Go(a, func(a *ctl.Actor) {
@@ -326,17 +449,11 @@ func (s *sys) exec(ev []uint64) (obs []uint64, ok bool) {
 		}
 		synctest.Wait()
 	case 8:
-		if len(ev) != 3 || ev[2] > 1 {
+		if len(ev) != 3 || ev[2] > 11 {
 			return nil, false
 		}
 		initial := ev[1]
-		ctx, cancel := context.WithCancel(context.Background())
-		d := &adata{cancel: cancel}
-		var errCh <-chan error
-		if ev[2] == 1 {
-			d.errCh = make(chan error, errCap)
-			errCh = d.errCh
-		}
+		ctx, d, errCh := newCtx(ev[2])
 		a := s.c.NewActor(kWatch)
 		a.Data = d
 		s.c.Go(a, func(a *ctl.Actor) {
@@ -349,7 +466,7 @@ func (s *sys) exec(ev []uint64) (obs []uint64, ok bool) {
 				}
 				return nil
 			}
-			err := ccontainer.WatchChanges(ctx, initial, ccontainer.ToWatchable(s.ctr), cb, errCh)
+			err := s.ctr.WatchChanges(ctx, initial, cb, errCh)
 			d.val = 0
 			if err == nil {
 				a.Res = 12
@@ -379,6 +496,26 @@ func smallVal(r *rand.Rand) uint64 {
 		return uint64(r.IntN(12))
 	}
 	return uint64(r.IntN(5))
+}
+
+// genHc draws the context / error-channel options of a waiter or watcher call (they are part of the event, so a
+// replay reproduces them): two thirds with an error channel; flavour plain 1/2, deadline-like 1/3, with cause 1/6;
+// one call in twelve is made with a context that has already ended.
+func genHc(r *rand.Rand) uint64 {
+	hc := uint64(0)
+	if r.IntN(3) > 0 {
+		hc = 1
+	}
+	switch r.IntN(6) {
+	case 0, 1:
+		hc += 2
+	case 2:
+		hc += 4
+	}
+	if r.IntN(12) == 0 {
+		hc += 6
+	}
+	return hc
 }
 
 // gen picks the next event among those the implementation allows now.
@@ -429,10 +566,7 @@ func (s *sys) gen(r *rand.Rand, maxActs int) []uint64 {
 			if r.IntN(5) >= 2 {
 				initial = smallVal(r)
 			}
-			hc := uint64(0)
-			if r.IntN(3) > 0 {
-				hc = 1
-			}
+			hc := genHc(r)
 			return []uint64{8, initial, hc}
 		case x < pw[3] && room:
 			kind := uint64(r.IntN(4))
@@ -446,10 +580,7 @@ func (s *sys) gen(r *rand.Rand, maxActs int) []uint64 {
 					b = smallVal(r)
 				}
 			}
-			hc := uint64(0)
-			if r.IntN(3) > 0 {
-				hc = 1
-			}
+			hc := genHc(r)
 			return []uint64{4, kind, a, b, hc}
 		case x < pw[4] && len(gates) > 0:
 			g := gates[r.IntN(len(gates))]
@@ -492,8 +623,30 @@ func (s *sys) count(ev []uint64, prev, obs []uint64) {
 	switch ev[0] {
 	case 3:
 		s.w.Count(fmt.Sprintf("ev.swap.f%d", ev[1]), 1)
+	case 2:
+		if cur := s.ctr.GetValue(); true {
+			// (GetValue from the controller goroutine: not an actor, passes the gates; nobody is inside a section now)
+			switch {
+			case s.cfg[0] == 7 && ev[1] == cur && cur != 0:
+				s.w.Count("sit.vt.set_of_equal_not_identical_pointer_called", 1)
+			case s.cfg[0] == 7 && ev[1] == 0 && cur == 0:
+				s.w.Count("sit.vt.set_nil_on_nil_called", 1)
+			case (s.cfg[0] == 5 || s.cfg[0] == 6) && ev[1] == cur:
+				s.w.Count("sit.nonreflexive_eq.set_of_identical_value_called", 1)
+			}
+		}
 	case 4:
 		s.w.Count(fmt.Sprintf("ev.wait.kind%d", ev[1]), 1)
+		s.w.Count(fmt.Sprintf("ev.wait.ctx_flavour%d", (ev[4]/2)%3), 1)
+		if ev[4] >= 6 {
+			s.w.Count("ev.wait.ctx_already_ended_at_call", 1)
+		}
+		if s.cfg[0] == 7 {
+			s.w.Count(fmt.Sprintf("sit.vt.wait.kind%d", ev[1]), 1)
+		}
+		if s.cfg[0] == 5 || s.cfg[0] == 6 {
+			s.w.Count(fmt.Sprintf("sit.nonreflexive_eq.wait.kind%d", ev[1]), 1)
+		}
 	case 7:
 		s.w.Count(fmt.Sprintf("ev.errch.m%d", ev[2]), 1)
 		if i := int(ev[1]); i < len(prev) && prev[i]%16 == 10 {
@@ -504,6 +657,10 @@ func (s *sys) count(ev []uint64, prev, obs []uint64) {
 			s.w.Count("sit.watch.cancel_inside_callback", 1)
 		}
 	case 8:
+		s.w.Count(fmt.Sprintf("ev.watch.ctx_flavour%d", (ev[2]/2)%3), 1)
+		if ev[2] >= 6 {
+			s.w.Count("ev.watch.ctx_already_ended_at_call", 1)
+		}
 		if ev[1] == 0 {
 			s.w.Count("ev.watch.initial_empty", 1)
 		} else {
@@ -540,7 +697,7 @@ func (s *sys) count(ev []uint64, prev, obs []uint64) {
 				} else {
 					s.w.Count("sit.nil_error_consumed_while_blocked", 1)
 				}
-			case 4:
+			case 4, 13:
 				s.w.Count("sit.canceled_while_blocked", 1)
 			case 5:
 				s.w.Count("sit.errch_error_while_blocked", 1)
@@ -567,11 +724,27 @@ func (s *sys) count(ev []uint64, prev, obs []uint64) {
 				if d.cbN >= 1 {
 					s.w.Count("sit.watch.blocked_in_a_later_round", 1)
 				}
-			case 4, 5, 11, 12, 3, 6, 8:
+			case 4, 5, 11, 12, 3, 6, 8, 13, 14:
 				s.w.Count(fmt.Sprintf("ret.watch.%d", c%16), 1)
 			}
 		}
-		if i < len(prev) && (prev[i]%16 < 3 || prev[i] == 7) && c%16 >= 3 && c%16 <= 6 && s.c.Acts[i].Kind == kWait {
+		if d, ok := s.c.Acts[i].Data.(*adata); ok && d.cancel != nil && i < len(prev) && prev[i]%16 != c%16 {
+			// the error identity by context flavour
+			switch {
+			case c%16 == 13:
+				s.w.Count(fmt.Sprintf("sit.ctxerr.flavour%d_returned_DeadlineExceeded", d.flav), 1)
+			case c%16 == 14:
+				s.w.Count(fmt.Sprintf("sit.ctxerr.flavour%d_returned_the_cause", d.flav), 1)
+			case c%16 == 4 && d.closed:
+				s.w.Count(fmt.Sprintf("sit.ctxerr.flavour%d_errch_closed_returned_Canceled", d.flav), 1)
+			case c%16 == 4:
+				s.w.Count(fmt.Sprintf("sit.ctxerr.flavour%d_ctx_ended_returned_Canceled", d.flav), 1)
+			}
+			if d.cancelled && d.flav != 0 && (c%16 == 3 || c%16 == 10) {
+				s.w.Count("sit.ctxerr.ended_nonplain_ctx_but_value_delivered", 1)
+			}
+		}
+		if i < len(prev) && (prev[i]%16 < 3 || prev[i] == 7) && (c%16 >= 3 && c%16 <= 6 || c%16 == 8 || c%16 >= 13) && s.c.Acts[i].Kind == kWait {
 			s.w.Count(fmt.Sprintf("ret.wait.%d", c%16), 1)
 		}
 	}
@@ -595,7 +768,7 @@ func (s *sys) count(ev []uint64, prev, obs []uint64) {
 func genCfg(r *rand.Rand) []uint64 {
 	eq := uint64(0)
 	if r.IntN(2) == 0 {
-		eq = uint64(r.IntN(5))
+		eq = uint64(r.IntN(8))
 	}
 	v0 := uint64(0)
 	if r.IntN(3) == 0 {
